@@ -72,6 +72,8 @@ def mk_item(sp):
         args = Inst()
     elif rule == 'vf_gap':
         args = S.to_repo_term(FORM[sp['arg']])
+    elif rule == 'theorem':
+        args = sp['arg']
     th = mk_thm(sp['th']) if sp.get('th') else None
     it = ProofItem(tuple(sp['id']), rule, args=args, prevs=[tuple(p) for p in sp.get('prevs', [])], th=th)
     if sp.get('sub') is not None:
@@ -476,6 +478,9 @@ def ext_case(ctx, rng):
             spec.append({'rule': 'substitution', 'prevs': [(0,)], 'id': (1,)})
     elif r < 0.6:
         spec = [{'rule': 'vf_gap', 'arg': CLAIMS[stated][1], 'id': (0,)}]
+    elif r < 0.7:
+        # circular: the proof cites the very theorem it is meant to prove
+        spec = [{'rule': 'theorem', 'arg': 'vf_ext_thm', 'id': (0,)}, {'rule': 'substitution', 'prevs': [(0,)], 'id': (1,)}]
     else:
         spec = rand_spec(rng)
     prf = mk_proof(spec)
@@ -492,6 +497,10 @@ def ext_case(ctx, rng):
         except Exception as e:
             ok = False
             ctx.count('ext_refused:' + type(e).__name__)
+            if theory.thy.has_theorem(name):
+                ctx.violation('EXT:refused-extension-leaves-its-theorem-installed',
+                              'checked_extend raised %s for %s but the theorem is in the theory afterwards (later proofs can cite it)' % (type(e).__name__, stated),
+                              {'kind': 'ext', 'stated': stated, 'spec': spec})
         finally:
             LOG.active = False
         ctx.count('ext_cases')
@@ -501,7 +510,9 @@ def ext_case(ctx, rng):
             if installed and not as_axiom:
                 ctx.count('ext_admitted_as_proved')
                 why = None
-                if any(ev['rule'] == 'sorry' and ev['ok'] for ev in LOG.events):
+                if any(ev['rule'] == 'theorem' and ev['ok'] and ev['obj'].args == name for ev in LOG.events):
+                    why = 'its proof cites the theorem being proved'
+                elif any(ev['rule'] == 'sorry' and ev['ok'] for ev in LOG.events):
                     why = 'its proof contains a placeholder'
                 else:
                     last = prf.items[-1].th if prf.items else None
@@ -516,7 +527,8 @@ def ext_case(ctx, rng):
                             if st == 'refuted':
                                 why = 'the admitted statement is not valid'
                 if why:
-                    mech = {'its proof contains a placeholder': 'EXT:admitted-with-gap',
+                    mech = {'its proof cites the theorem being proved': 'EXT:admitted-circular-proof',
+                            'its proof contains a placeholder': 'EXT:admitted-with-gap',
                             'its proof yields no sequent': 'EXT:admitted-without-sequent',
                             'its proof concludes a different sequent': 'EXT:admitted-proof-of-other-sequent',
                             'the admitted statement is not valid': 'EXT:admitted-invalid-statement'}[why]
